@@ -95,6 +95,8 @@ def selection_index_is_within_the_selected_range(ctx):
 
 
 def run(ctx):
+    from .C01 import candidates_come_from_ranking
+    candidates_come_from_ranking(ctx)
     selection_index_is_within_the_selected_range(ctx)
     integer_text_is_decimal(ctx, "C09")
     size_components_kept_in_double(ctx, "C09")
